@@ -29,7 +29,7 @@ func (c18) Assumptions() []string {
 }
 func (c18) Floors(tier string, c map[string]int64) []string {
 	var out []string
-	for _, k := range []string{"mut/set", "mut/marshal", "mut/filter", "mut/inplace-bytes", "mut/inplace-ids", "mut/inplace-nbytes", "mut/type-edit", "impl/soft", "impl/wrapped", "typecopy"} {
+	for _, k := range []string{"mut/set", "mut/marshal", "mut/filter", "mut/inplace-bytes", "mut/inplace-ids", "mut/inplace-nbytes", "mut/type-edit", "impl/soft", "impl/wrapped", "typecopy", "single_kind_types"} {
 		if c[k] == 0 {
 			out = append(out, "never observed: "+k)
 		}
@@ -161,6 +161,13 @@ func genC18Type(r *RNG, wrapped bool) TypeSpec {
 	if r.Bool() {
 		t.Rels = append(t.Rels, RelSpec{Name: "many2", ToType: "y"})
 	}
+	// types with only one kind of field: their other map is empty (or nil) at copy time
+	switch r.Intn(6) {
+	case 0:
+		t.Rels = nil
+	case 1:
+		t.Attrs = nil
+	}
 	return t
 }
 
@@ -177,11 +184,15 @@ func (m c18) Case(c *Ctx, r *RNG) {
 	t := genC18Type(r, r.Bool())
 	rs := genResource(r, &t, genID(r))
 	// the interesting fields are always populated
-	rs.Attrs["bytes"] = Val{K: KBytes, Bytes: []byte{9, 8, 7, byte(r.Intn(256))}}
-	if r.Chance(4, 5) {
-		rs.Attrs["nbytes"] = Val{K: KBytes, Null: true, Bytes: []byte{3, 2, 1}}
+	if t.Attr("bytes") != nil {
+		rs.Attrs["bytes"] = Val{K: KBytes, Bytes: []byte{9, 8, 7, byte(r.Intn(256))}}
+		if r.Chance(4, 5) {
+			rs.Attrs["nbytes"] = Val{K: KBytes, Null: true, Bytes: []byte{3, 2, 1}}
+		}
 	}
-	rs.ToMany["many"] = []string{"z9", "m5", "a1"}
+	if t.Rel("many") != nil {
+		rs.ToMany["many"] = []string{"z9", "m5", "a1"}
+	}
 	if t.Rel("many2") != nil {
 		rs.ToMany["many2"] = []string{"y", "x"}
 	}
@@ -192,6 +203,10 @@ func (m c18) Case(c *Ctx, r *RNG) {
 		mu := c18mut{Side: r.Intn(2), Kind: kinds[r.Intn(len(kinds))]}
 		switch mu.Kind {
 		case "set":
+			if len(t.Attrs) == 0 {
+				mu.Kind = "marshal"
+				break
+			}
 			a := t.Attrs[r.Intn(len(t.Attrs))]
 			v := genVal(r, a.Kind, a.Null)
 			if a.Kind == KBytes && !v.IsNil() && len(v.Bytes) == 0 {
@@ -199,6 +214,10 @@ func (m c18) Case(c *Ctx, r *RNG) {
 			}
 			mu.Field, mu.Val = a.Name, &v
 		case "set-rel":
+			if len(t.Rels) == 0 {
+				mu.Kind = "marshal"
+				break
+			}
 			rel := t.Rels[r.Intn(len(t.Rels))]
 			mu.Field = rel.Name
 			if rel.ToOne {
@@ -360,11 +379,16 @@ func (m c18) run(c *Ctx, t *TypeSpec, rs *ResSpec, muts []c18mut) {
 		var before, after resSnap
 		if pi := Guard(func() {
 			before = snapshotRes(src)
-			fresh.Set("bytes", []byte{1, 1, 1})
-			fresh.Set("many", []string{"n"})
+			if t.Attr("bytes") != nil {
+				fresh.Set("bytes", []byte{1, 1, 1})
+			}
+			if t.Rel("many") != nil {
+				fresh.Set("many", []string{"n"})
+			}
 			fresh.Set("id", "fresh-id")
 			if sr, ok := fresh.(*jsonapi.SoftResource); ok {
 				sr.AddAttr(jsonapi.Attr{Name: "fresh-extra", Type: KString})
+				sr.AddRel(jsonapi.Rel{FromName: "fresh-extra-rel", ToType: "x"})
 				sr.RemoveField("one")
 			}
 			after = snapshotRes(src)
@@ -375,7 +399,10 @@ func (m c18) run(c *Ctx, t *TypeSpec, rs *ResSpec, muts []c18mut) {
 			}
 		}
 	}
-	if nonEmptySlices >= 1 {
+	if len(t.Attrs) == 0 || len(t.Rels) == 0 {
+		c.Count("single_kind_types")
+	}
+	if nonEmptySlices >= 1 || len(t.Attrs) == 0 || len(t.Rels) == 0 {
 		c.Nontrivial(impl + jsonStr(t) + jsonStr(rs) + jsonStr(muts))
 	}
 	m.typeCopy(c, t)
@@ -410,9 +437,36 @@ func (m c18) typeCopy(c *Ctx, t *TypeSpec) {
 		cp2 := typ.Copy()
 		before = typeFingerprint(&cp2)
 		_ = typ.AddAttr(jsonapi.Attr{Name: "added-to-source", Type: KInt})
+		_ = typ.AddRel(jsonapi.Rel{FromName: "rel-added-to-source", ToType: "x"})
 		typ.RemoveRel("one")
 		if after := typeFingerprint(&cp2); after != before {
 			problem = "editing the source changed the copy: " + before + " -> " + after
+			return
+		}
+		// types whose maps are empty but not nil (the normal state of a SoftResource's type)
+		for _, variant := range []jsonapi.Type{
+			{Name: "only-attrs", Attrs: map[string]jsonapi.Attr{"a": {Name: "a", Type: KInt}}, Rels: map[string]jsonapi.Rel{}},
+			{Name: "only-rels", Attrs: map[string]jsonapi.Attr{}, Rels: map[string]jsonapi.Rel{"r": {FromName: "r", ToType: "x"}}},
+			{Name: "empty", Attrs: map[string]jsonapi.Attr{}, Rels: map[string]jsonapi.Rel{}},
+			{Name: "nil-maps"},
+		} {
+			v := variant
+			vc := v.Copy()
+			b1 := typeFingerprint(&v)
+			_ = vc.AddAttr(jsonapi.Attr{Name: "x1", Type: KString})
+			_ = vc.AddRel(jsonapi.Rel{FromName: "x2", ToType: "x"})
+			if a1 := typeFingerprint(&v); a1 != b1 {
+				problem = "editing the copy changed the source: " + b1 + " -> " + a1
+				return
+			}
+			vc2 := v.Copy()
+			b2 := typeFingerprint(&vc2)
+			_ = v.AddAttr(jsonapi.Attr{Name: "y1", Type: KString})
+			_ = v.AddRel(jsonapi.Rel{FromName: "y2", ToType: "x"})
+			if a2 := typeFingerprint(&vc2); a2 != b2 {
+				problem = "editing the source changed the copy: " + b2 + " -> " + a2
+				return
+			}
 		}
 	}); pi != nil {
 		c.Violate("panic@"+pi.Frame+"/typecopy", "%s: %s", jsonStr(t), pi)
